@@ -463,6 +463,9 @@ def gen_midframe(rng, knobs=None):
 RAISE_POLICIES = [
     ('rr', {'raise': True}), ('rr', {'mode': 'error'}), ('fnf', {'raise': True}), ('push', {'raise': True}),
     ('rr', {'mode': 'cancelled'}), ('rr', {'mode': 'cancel_soon'}),
+    # handlers that return nothing / the wrong kind of thing instead of a future, a publisher, a (publisher, subscriber) pair
+    ('rr', {'returns': 'none'}), ('rr', {'returns': 'wrong'}), ('stream', {'returns': 'none'}), ('stream', {'returns': 'wrong'}),
+    ('channel', {'returns': 'none'}), ('channel', {'returns': 'wrong'}),
     ('stream', {'raise': True}), ('stream', {'src': 'scripted', 'pub_raise_in': ['subscribe']}),
     ('stream', {'src': 'scripted', 'pub_raise_in': ['request']}), ('stream', {'src': 'scripted', 'pub_raise_in': ['cancel']}),
     ('stream', {'src': 'generator', 'items': [[5, 0], [6, 0], [7, 0]], 'raise_at': 1, 'complete_on_last': True}),
